@@ -1,7 +1,7 @@
 """C16 — parallel-request limits are never exceeded and never leak (DESIGN.md §5 C16).
 
 Proof: Props/C16.lean — endpoint_limit_inv, total_limit_inv, fifo_per_path (+ queue_is_arrival_order), cancel_neutral,
-       cancel_neutral_sem, cancelled_never_starts, idle_after_all, fresh_admitted: inductions over arbitrary event lists of
+       cancel_neutral_sem, cancelled_never_starts, idle_after_all, fresh_admitted, waiting_justified: inductions over arbitrary event lists of
        the limiter event system Model/Limiter.lean (invariant in Lemmas/Limiter.lean).
 Tie:   X — the real limitparallelrequests.New(...) runs under testing/synctest (harness/c16): every order of
        {arrive, arrive-with-cancelled-context, cancel, finish} for a bounded number of requests / paths / limits is executed
@@ -34,7 +34,8 @@ def gen_lines(ctx):
     if thorough:
         for (l, e) in cfgs[:4]:
             L.append("explore %d %d 5 2 0" % (l, e))
-        L.append("explore 2 1 5 2 1")
+        for (l, e) in cfgs[:4]:
+            L.append("explore %d %d 5 2 1" % (l, e))
         L.append("explore 2 2 4 3 1")
         L.append("explore 3 2 5 1 0")
     else:
